@@ -50,7 +50,7 @@ def _gen_cfg(S, want_rt=None):
     if S.coin(0.5):
         types = [t for t in types if t not in INT] or [S.pick(FWD + BWD)]
     charges = S.pick([1, 2, 3, [1], [1, 2], [2, 1], [1, 3], [2, 4], [1, 2, 3]])
-    isotopes = S.pick([0, 0, 0, 1, [0, 1], [0, 2], [1, 3], [0, 1, 2]])
+    isotopes = S.pick([0, 0, 0, 1, [0, 1], [0, 2], [1, 3], [0, 1, 2], [1, 0], [2, 0, 1], [3, 0]])   # any order
     custom = None
     if S.coin(0.4):
         # single-residue classes, multi-residue motifs and anchored patterns; values that may coincide with each
@@ -99,7 +99,7 @@ def gen_plan(S, index, tier):
     allow = ['static', 'isotope', 'nterm', 'cterm', 'internal']
     if S.coin(0.15):
         allow = allow + ['labile']       # outside the stated quantifier, inside the domain: labile mods leave with the precursor
-    cfg = SP.swarm_cfg(S, maxlen=S.pick([3, 6, 12]), allow=allow, families=SP.MASSABLE, rare=False)
+    cfg = SP.swarm_cfg(S, maxlen=S.pick([3, 6, 12]), allow=allow, families=SP.MASSABLE, rare=True)   # J, X now and then
     if S.coin(0.5):
         cfg['p']['isotope'] = 0.0      # labelled peptides are a configuration of their own
     if S.coin(0.06):
